@@ -189,7 +189,16 @@ MM = collections.namedtuple("minmax", "values indices")
 class Tensor:
     __array_priority__ = 1000
 
-    def __init__(self, arr, dtype):
+    def __init__(self, arr, dtype=None, *more):
+        if dtype is None or isinstance(dtype, _pyint):
+            if isinstance(arr, _pyint):  # torch.Tensor(d0, d1, ...): uninitialised float tensor of that shape
+                sizes = (arr,) + (() if dtype is None else (dtype,)) + tuple(more)
+                a = np.empty(sizes, dtype=object)
+                a.fill(0.0)
+                arr, dtype = a, float32
+            else:  # torch.Tensor(list_of_values)
+                t = tensor(arr, dtype=float32)
+                arr, dtype = t.a, float32
         self.a = _obj(arr)
         self.dtype = norm_dtype(dtype)
         self.requires_grad = False
